@@ -71,6 +71,7 @@ type aSurface struct {
 	Sep    int // 0 ", " 1 "," 2 " , " 3 " "
 	By     bool
 	AndSep int // 0 " and " 1 " " 2 ", "
+	WS     int // white space between tokens: 0 " " 1 "\n" 2 "\t" 3 "  " 4 "\r\n" 5 " \n  "
 }
 
 func kw(s string, c int) string {
@@ -151,7 +152,26 @@ func (q *aQuery) render(sf aSurface) string {
 		k := (sf.Order - 1) % n
 		clauses = append(clauses[k:], clauses[:k]...)
 	}
-	return strings.Join(clauses, " ")
+	q1 := strings.Join(clauses, " ")
+	if sf.WS == 0 {
+		return q1
+	}
+	// replace every blank outside double quotes by the chosen white space
+	ws := []string{" ", "\n", "\t", "  ", "\r\n", " \n  "}[sf.WS]
+	var sb strings.Builder
+	inQuote := false
+	for _, r := range q1 {
+		switch {
+		case r == '"':
+			inQuote = !inQuote
+			sb.WriteRune(r)
+		case r == ' ' && !inQuote:
+			sb.WriteString(ws)
+		default:
+			sb.WriteRune(r)
+		}
+	}
+	return sb.String()
 }
 
 var c11Fields = map[string]string{"f": "5", "g": "abc", "$v": "7", "from": "x", "h": "12ab", "count(x)": "9"}
@@ -672,6 +692,10 @@ func c11Run(c *Ctx) {
 						for as := 0; as < 3; as++ {
 							c11CheckValid(c, q, aSurface{Order: ord, Case: cs, Sep: sp, By: by, AndSep: as})
 						}
+						// white-space styles (multi-line queries, tabs, CRLF)
+						for ws := 1; ws < 6; ws++ {
+							c11CheckValid(c, q, aSurface{Order: ord, Case: cs, Sep: sp, By: by, AndSep: ws % 3, WS: ws})
+						}
 					}
 				}
 			}
@@ -691,7 +715,7 @@ func init() {
 		Rule: "abstract queries are enumerated as a product of clause menus (11 select items and ordered pairs, table, where conditions over every operator x operand kind, " +
 			"group, order/rorder, set incl. nested functions, interval, limit, outfile [append], logformat); each is rendered to text and parsed by mapr.NewQuery; " +
 			"product A = all clause combinations in canonical surface, B = every single where condition and pairs under 9 surfaces, C = a reduced abstract set under every " +
-			"clause order (canonical, reversed, rotations) x keyword case x separator x optional 'by' x 'and' style; the parsed fields and a one-line evaluation of where/set " +
+			"clause order (canonical, reversed, rotations) x keyword case x separator x optional 'by' x 'and' style x white-space style (blank, newline, tab, double blank, CRLF, indented newline); the parsed fields and a one-line evaluation of where/set " +
 			"must equal the denotation; 39 malformed classes x 3 spellings must be rejected without panic; non-trivial = query has where/set or a non-canonical surface",
 		Assumptions: []string{
 			"aggregation and function names are written in lower case and string operators get field/quoted operands, float operators get field/number operands (other spellings are ambiguous in the documented grammar and excluded so that the check never demands more than the statement)",
